@@ -212,11 +212,13 @@ func ruleC07(c *Ctx) {
 			}
 			if strings.Contains(label, "unsigned-root") {
 				nU++
-				good := reset != nil && reset.Seq < dec.Seq && val != nil && dec.Seq < val.Seq
-				detail := "reset < decrypt < validate"
+				// the reset of the pre-verification lists and the decryption are independent of each other (decryption only
+				// touches the tree); both must precede the traversal that appends the verified assertions
+				good := reset != nil && val != nil && reset.Seq < val.Seq && dec.Seq < val.Seq
+				detail := "reset, decrypt < validate"
 				if iter != nil {
-					good = good && dec.Seq < iter.Seq && iter.Args[0].Key() == dec.Args[1].Key()
-					detail = "reset < decrypt(root) < traversal(same root) < validate"
+					good = good && reset.Seq < iter.Seq && dec.Seq < iter.Seq && iter.Args[0].Key() == dec.Args[1].Key()
+					detail = "reset, decrypt(root) < traversal(same root) < validate"
 				}
 				c.check(good, "C07-R2", fname, "unsigned path order ["+label+"]", pos, detail,
 					"on the unsigned-Response path decryption does not precede the verifying traversal over the same root (decrypted assertions would be dropped or left unverified)")
